@@ -36,8 +36,8 @@ static char uxf_dir[600], ctl_dir[600];
 
 enum fam { F_INJECT, F_RLIMIT, F_BURST, F_FORK, F_PLAIN };
 static const char *const fam_name[] = { "inject", "rlimit", "burst", "fork-cleanup", "plain" };
-enum flav { FL_PLAIN, FL_DNS, FL_LOCAL_ADDR, FL_TLS_BY_VALUE, FL_BAD_ATTR, FL_REFUSED, FL_ADDR_IN_USE, FL_CTL, FL_ACCEPT_EMPTY, FL_BLOCKING_ACCEPT, FL_CONNECTING, FL_CTL_LONG, FL_ACCEPT_BLOCKING, FL_N };
-static const char *const flav_name[] = { "plain", "dns-name", "local-addr", "tls-by-value", "bad-attr", "refused", "addr-in-use", "ctl", "accept-empty", "blocking-accept", "connect-pending", "ctl-long-dir", "accept-map-blocking" };
+enum flav { FL_PLAIN, FL_DNS, FL_LOCAL_ADDR, FL_TLS_BY_VALUE, FL_BAD_ATTR, FL_REFUSED, FL_ADDR_IN_USE, FL_CTL, FL_ACCEPT_EMPTY, FL_BLOCKING_ACCEPT, FL_CONNECTING, FL_CTL_LONG, FL_ACCEPT_BLOCKING, FL_BY_NAME, FL_N };
+static const char *const flav_name[] = { "plain", "dns-name", "local-addr", "tls-by-value", "bad-attr", "refused", "addr-in-use", "ctl", "accept-empty", "blocking-accept", "connect-pending", "ctl-long-dir", "accept-map-blocking", "addresses-by-name" };
 
 struct scn { enum vtp tp; enum flav fl; };
 struct site { int scn; int call; int idx; int err; };
@@ -50,7 +50,7 @@ static bool flav_ok(enum vtp tp, enum flav fl)
 {
     bool tcpb = vtp_is_tcp_based(tp);    /* utls counts: it has a TLS half */
     switch (fl) {
-    case FL_DNS: case FL_LOCAL_ADDR: case FL_CONNECTING: return tcpb && tp != TP_UTLS_UX;
+    case FL_DNS: case FL_LOCAL_ADDR: case FL_CONNECTING: case FL_BY_NAME: return tcpb && tp != TP_UTLS_UX;
     case FL_TLS_BY_VALUE: return vtp_is_tls(tp) || tp == TP_UTLS_UX;
     default: return true;
     }
@@ -191,6 +191,15 @@ static void scenario(const struct scn *sc, vrng *r, struct live *lv_out)
     case TP_UXF: snprintf(lv.uxf_path, sizeof lv.uxf_path, "%s/s%d-%d", uxf_dir, (int)getpid(), ctr); snprintf(saddr, sizeof saddr, "uxf:%s", lv.uxf_path); break;
     default: snprintf(saddr, sizeof saddr, "%s:127.0.0.1:0", pr); break;
     }
+    if (sc->fl == FL_BY_NAME) {
+        /* the server's address and the client's local address are host names: both are resolved synchronously, the resolver takes a few ms */
+        struct vdns_plan dp; memset(&dp, 0, sizeof dp); snprintf(dp.name, sizeof dp.name, "srv.c08.verif.test"); dp.deliver = VDNS_AFTER_MS; dp.after = 3 + (int)vrnd_n(r, 6); vdns_addr4(&dp.addrs[dp.n++], "127.0.0.1");
+        struct vdns_plan lp = dp; snprintf(lp.name, sizeof lp.name, "loc.c08.verif.test");
+        vdns_enable(true); vdns_set(&dp); vdns_set(&lp);
+        snprintf(saddr, sizeof saddr, "%s:srv.c08.verif.test:0", pr);
+        char la2[96]; snprintf(la2, sizeof la2, "%s:loc.c08.verif.test:0", sc->tp == TP_BTCP ? "btcp" : sc->tp == TP_BTLS ? "btls" : sc->tp == TP_TCP ? "tcp" : "tls");
+        xcm_attr_map_add_str(cm, "xcm.local_addr", la2);
+    }
     int blocker = -1; struct vnet_noanswer na; bool have_na = false; na.lfd = -1; na.ncfd = 0;
     if (sc->fl == FL_ADDR_IN_USE && sc->tp != TP_UX && sc->tp != TP_UXF) {
         const char *ips[1] = { "127.0.0.1" }; int port = vnet_pick_port(ips, 1);
@@ -253,6 +262,21 @@ static void scenario(const struct scn *sc, vrng *r, struct live *lv_out)
         }
     }
     xcm_attr_map_destroy(sm); xcm_attr_map_destroy(cm); xcm_attr_map_destroy(am);
+    int ccfd[16]; int nccfd = 0;
+    if (sc->fl == FL_CTL && !lv_out && getenv("XCM_CTL") && !strcmp(getenv("XCM_CTL"), ctl_dir)) {
+        /* both seats of every control interface are taken when the sockets are closed */
+        unsigned char b8[32];
+        for (int rd = 0; rd < 2; rd++) {
+            nccfd += vctl_connect_all(ctl_dir, ccfd + nccfd, NULL, 8 - 0);
+            for (int k = 0; k < 12; k++) {
+                if (lv.cl) { SCX("xcm_receive", 0); xcm_receive(lv.cl, b8, sizeof b8); vs_leave(); }
+                if (lv.ac) { SCX("xcm_receive", 1); xcm_receive(lv.ac, b8, sizeof b8); vs_leave(); }
+                if (lv.sv) { SCX("xcm_accept", 2); struct xcm_socket *x = xcm_accept(lv.sv); vs_leave(); if (x) { struct xcm_socket *y = x; S_close(&y, 1); } }
+            }
+            if (nccfd > 8) break;
+        }
+        if (nccfd) vobs("closes_with_two_control_clients_attached", 1);
+    }
     if (blocker >= 0) close(blocker);
     if (have_na) vnet_noanswer_close(&na);
     if (lv_out) { *lv_out = lv; return; }
@@ -261,6 +285,7 @@ static void scenario(const struct scn *sc, vrng *r, struct live *lv_out)
     if (order == 0) { S_close(&lv.cl, 0); S_close(&lv.ac, 1); S_close(&lv.sv, 2); }
     else if (order == 1) { S_close(&lv.sv, 2); S_close(&lv.ac, 1); S_close(&lv.cl, 0); }
     else { S_close(&lv.ac, 1); S_close(&lv.sv, 2); S_close(&lv.cl, 0); }
+    for (int i = 0; i < nccfd; i++) close(ccfd[i]);
     vdns_enable(false);
 }
 
@@ -367,8 +392,8 @@ static void at_step(struct live *lv)
 }
 
 /* ---- counting and site enumeration ---- */
-static const int inj_calls[] = { VS_SOCKET, VS_ACCEPT, VS_EPOLL_CREATE, VS_EVENTFD, VS_TIMERFD_CREATE, VS_CONNECT, VS_BIND, VS_LISTEN, VS_SETSOCKOPT, VS_FOPEN };
-#define N_INJ 10
+static const int inj_calls[] = { VS_SOCKET, VS_ACCEPT, VS_EPOLL_CREATE, VS_EVENTFD, VS_TIMERFD_CREATE, VS_CONNECT, VS_BIND, VS_LISTEN, VS_SETSOCKOPT, VS_FOPEN, VS_POLL };
+#define N_INJ 11
 static int errs_for(int call, int *out)
 {
     switch (call) {
@@ -377,6 +402,7 @@ static int errs_for(int call, int *out)
     case VS_CONNECT: out[0] = ECONNREFUSED; out[1] = ENETUNREACH; out[2] = EACCES; return 3;
     case VS_BIND: out[0] = EADDRINUSE; out[1] = EACCES; return 2;
     case VS_LISTEN: out[0] = EADDRINUSE; return 1;
+    case VS_POLL: out[0] = EINTR; return 1;            /* a signal during a wait inside the library (synchronous name resolution) */
     case VS_SETSOCKOPT: out[0] = ENOPROTOOPT; out[1] = EINVAL; return 2;
     default: out[0] = EACCES; out[1] = EMFILE; return 2;
     }
@@ -392,7 +418,7 @@ static void count_case(long idx, void *arg)
     scenario(&scns[ca->scn], &r, NULL);
     char p[700]; snprintf(p, sizeof p, "%s/count.%d", va.dir, ca->scn);
     FILE *f = fopen(p, "w");
-    if (f) { for (int i = 0; i < N_INJ; i++) fprintf(f, "%d %ld\n", inj_calls[i], plan.n_call[inj_calls[i]]); fclose(f); }
+    if (f) { for (int i = 0; i < N_INJ; i++) fprintf(f, "%d %ld\n", inj_calls[i], inj_calls[i] == VS_POLL ? plan.n_blocking_polls : plan.n_call[inj_calls[i]]); fclose(f); }
 }
 
 static void enumerate_sites(void)
